@@ -238,6 +238,8 @@ static void ep8_mul_reg_gls(ep8_t r, const ep8_t p, const bn_t k) {
 			fp8_copy_sec(r->x, q[1]->x, even[i]);
 			fp8_copy_sec(r->y, q[1]->y, even[i]);
 			fp8_copy_sec(r->z, q[1]->z, even[i]);
+			/* The two candidates may be in different coordinate systems. */
+			r->coord = RLC_SEL(r->coord, q[1]->coord, even[i]);
 		}
 
 		/* Convert r to affine coordinates. */
